@@ -507,7 +507,17 @@ class ParserMaps:
             v = branch_value(br)
             target = self.ctx.facts.hir.get(v.get("def")) if v["k"] == "MethodCall" else None
             if target is None:
-                self.ctx.unrecognised("M-PARSE", "consume_punctuation", "branch for %s is not a method call" % fld)
+                # the helper is written in place (or is a new, inlined helper `consume_punctuation_as(keyword, punctuation)`): the branch itself
+                # skips the keyword and stores the punctuation; its parameters are lets, read through
+                env_ = hir.let_env(br)
+                br2 = hir.through_lets(br, env_)
+                sk = branch_skip_fields(br2)
+                ins = [n for n in hir.find_calls(br2, "insert") if (field_path(hir.call_args(n)[0]) or ("",))[-1] == "punctuation"]
+                if len(sk) != 1 or len(ins) != 1:
+                    self.ctx.unrecognised("M-PARSE", "consume_punctuation", "branch for %s is not a method call" % fld)
+                    continue
+                self.ctx.ob("M-SKIP", "consume_punctuation %s" % fld, sk[0] == fld, "dispatches on %s but skips %s" % (fld, sk[0]))
+                self.punct[fld] = root_variant(pev.try_eval(hir.call_args(ins[0])[1], {}, 0, it["path"]))
                 continue
             self.ctx.fn(target)
             first, _ = first_skip_field(target)
